@@ -4,12 +4,12 @@ import PV.Expr.Syntax
   (`PV.C11.parse_unparse_partial`): the operator core of the expression language.
 
     Name, every constant (numbers, strings, bytes, `None`, `True`, `False`, `...`), Attribute,
-    List, Tuple and Set displays (plain elements), Dict displays (`key: value` entries), Call with positional arguments, Subscript with a
+    List, Tuple and Set displays (plain elements), Dict displays (`key: value` and `**value` entries), Call with positional arguments, Subscript with a
     single plain index,
     Await, Yield, YieldFrom, BoolOp (n ≥ 2 operands), UnaryOp (all four), BinOp (all thirteen), Compare (n ≥ 1 comparisons),
     IfExp — nested arbitrarily.
 
-  Everything else (lambda, `**` in dict displays, comprehensions, keyword / starred arguments, slices and
+  Everything else (lambda, comprehensions, keyword / starred arguments, slices and
   tuple indices, starred,
   named expressions, f-string literals) is outside `InFragment`;
   for those the statement `parse_unparse_full` is only checked by correspondence.
@@ -45,11 +45,11 @@ def inFrag : Expr → Bool
 def inFragList : List Expr → Bool
   | [] => true
   | e :: es => inFrag e && inFragList es
-/-- `key: value` entries only (no `**` unpacking) -/
+/-- `key: value` and `**value` entries -/
 def inFragItems : List DictItem → Bool
   | [] => true
   | .mk (some k) v :: is => inFrag k && inFrag v && inFragItems is
-  | .mk none _ :: _ => false
+  | .mk none v :: is => inFrag v && inFragItems is
 end
 
 /-- `e` lies in the operator core (and satisfies the grammar's side conditions there) -/
